@@ -278,7 +278,7 @@ func doWorker(e Engine, x *Ctx, tier string, seed uint64, w, n int, out string, 
 			wall := time.Since(time.Unix(0, startedAt.Load()))
 			used := cpu - time.Duration(cpuAtStart.Load())
 			blocked := wall > timeout && time.Since(lastProgress) > 60*time.Second
-			if used > timeout || blocked || wall > 20*timeout {
+			if used > 2*timeout || blocked || wall > 20*timeout {
 				// The watchdog never touches bw (owned by the main goroutine): it appends
 				// the hang marker through a second handle and leaves.
 				if g, err := os.OpenFile(out+".hang", os.O_CREATE|os.O_WRONLY, 0o644); err == nil {
@@ -476,7 +476,7 @@ func coordinate(e Engine, x *Ctx, o coordOpts) int {
 		}
 	}
 	// A case that exceeded its budget among fifteen other workers is run once more, alone and with
-	// eight times the budget, before anything is concluded: if it finishes, its result counts like
+	// four times the budget, before anything is concluded: if it finishes, its result counts like
 	// any other; only a case that does not finish then is a hang.
 	var realHangs []int
 	for _, h := range hangs {
@@ -485,7 +485,7 @@ func coordinate(e Engine, x *Ctx, o coordOpts) int {
 		b, _ := json.Marshal([]int{h})
 		os.WriteFile(out+".todo", b, 0o644)
 		cmd := exec.Command(exe, append(selfArgs(e, o), "-worker", "0", "-workers", "1", "-out", out)...)
-		cmd.Env = append(os.Environ(), "VERIF_TIMEOUT_SCALE=8")
+		cmd.Env = append(os.Environ(), "VERIF_TIMEOUT_SCALE=4")
 		cmd.Stdout, cmd.Stderr = os.Stderr, os.Stderr
 		err := cmd.Run()
 		if _, herr := os.Stat(out + ".hang"); herr == nil {
@@ -590,14 +590,14 @@ func coordinate(e Engine, x *Ctx, o coordOpts) int {
 	reported := 0
 	var violationNotes []string
 
-	// Hangs: cases that did not finish even alone with eight times the budget.
+	// Hangs: cases that did not finish even alone with four times the budget.
 	if slowRerun > 0 {
 		total.Counters["slow_cases_rerun_alone"] += slowRerun
 	}
 	for _, h := range hangs {
 		c := plan[h]
 		rf := &ReplayFile{Property: e.ID(), Tier: o.tier, VerifSeed: o.seed, Case: c, RepoTree: o.repoTree,
-			Violation: &Violation{Class: "hang", Message: "case did not terminate within the budget (neither among other workers nor alone with eight times the budget)"}}
+			Violation: &Violation{Class: "hang", Message: "case did not terminate within the budget (neither among other workers nor alone with four times the budget)"}}
 		path := writeReplay(o.replayDir, rf, "")
 		fmt.Printf("VIOLATION property=%s replay=%s\n  class=hang\n", e.ID(), path)
 		violationNotes = append(violationNotes, "hang case "+fmt.Sprint(h))
@@ -814,8 +814,8 @@ func doReplay(e Engine, x *Ctx, path string) int {
 		t = ReplayTape(rf.Tape)
 	}
 	if rf.Violation != nil && rf.Violation.Class == "hang" {
-		// a recorded hang reproduces iff the case again fails to finish within eight times its budget
-		budget := 8 * e.Meta().CaseTimeout
+		// a recorded hang reproduces iff the case again fails to finish within the CPU budget of the lone re-run
+		budget := 8 * e.Meta().CaseTimeout // = 2 x 4 x the per-case budget, as in the original run
 		if budget == 0 {
 			budget = 8 * time.Minute
 		}
